@@ -126,9 +126,9 @@ impl std::ops::Deref for BytesMut {
 pub trait Decoder {
     type Item;
     type Error;
-    fn decode(&mut self, src: &mut BytesMut) -> Result<Option<Self::Item>, Self::Error>;
+    fn decode(&mut self, src: &mut BytesMut) -> std::result::Result<Option<Self::Item>, Self::Error>;
 }
 pub trait Encoder<Item> {
     type Error;
-    fn encode(&mut self, item: Item, dst: &mut BytesMut) -> Result<(), Self::Error>;
+    fn encode(&mut self, item: Item, dst: &mut BytesMut) -> std::result::Result<(), Self::Error>;
 }
